@@ -4976,7 +4976,9 @@ def frag_fileflags(src):
 #     Y = get_progress(x)(args); Y.enter(); ...; Y.exit()     -> bare
 #   (a try/finally that does not start right after `Y.enter()` is `bare`).
 #   Anything else is Untranslatable.  `BaseProgress.__enter__/__exit__` must delegate to
-#   `enter()` / `exit()`.
+#   `enter()` / `exit()`; the shape of `__exit__` (result of exit() dropped / returned /
+#   constant) and the kind of value each exit() returns (none / self / falsy constant /
+#   other value) are recorded: a truthy `__exit__` would swallow the exception.
 #
 # Part 2 -- micro-op lists of each class registered in PROGRESS_DICT:
 #     print(...) / self._file.write(...)            -> print     (self._file.flush(): nothing)
@@ -5129,6 +5131,7 @@ class _PgClass:
                 if isinstance(st, ast.FunctionDef) and st.name not in self.methods:
                     self.methods[st.name] = st
         self._pure = {}
+        self.returns = {}       # method -> none | self | falsy | value  (last statement)
 
     def err(self, node, msg):
         raise Untranslatable("%s:%d: %s.%s" % (self.rel, getattr(node, "lineno", 0),
@@ -5165,7 +5168,20 @@ class _PgClass:
         if isinstance(st, ast.Return):
             if not is_last:
                 self.err(st, "%s: return before the end" % mname)
-            if st.value is None or (isinstance(st.value, ast.Name) and st.value.id == "self"):
+            if st.value is None or (isinstance(st.value, ast.Constant) and st.value.value is None):
+                self.returns[mname] = "none"
+                return []
+            if isinstance(st.value, ast.Name) and st.value.id == "self":
+                self.returns[mname] = "self"
+                return []
+            if mname == "exit":
+                # exit() may return a value; what matters is whether it can be truthy
+                if _pg_mentions_shared(st.value):
+                    self.err(st, "%s: returns protocol state" % mname)
+                if isinstance(st.value, ast.Constant) and not st.value.value:
+                    self.returns[mname] = "falsy"
+                else:
+                    self.returns[mname] = "value"
                 return []
             self.err(st, "%s: returns something else than self" % mname)
         if isinstance(st, ast.Expr) and isinstance(st.value, ast.Call):
@@ -5405,12 +5421,27 @@ def frag_progressguard(src):
     if not (len(en) == 1 and isinstance(en[0], ast.Return)
             and ast.unparse(en[0].value) == "self.enter()"):
         raise Untranslatable("BaseProgress.__enter__ is not `return self.enter()`")
-    if not (len(ex) == 1 and isinstance(ex[0], ast.Expr)
-            and ast.unparse(ex[0].value) == "self.exit()"):
-        raise Untranslatable("BaseProgress.__exit__ is not `self.exit()`")
+    # __exit__:  self.exit()  |  return self.exit()  |  self.exit(); return <constant>
+    dunder = None
+    if len(ex) == 1 and isinstance(ex[0], ast.Expr) and ast.unparse(ex[0].value) == "self.exit()":
+        dunder = ".dropsResult"
+    elif len(ex) == 1 and isinstance(ex[0], ast.Return) and ex[0].value is not None \
+            and ast.unparse(ex[0].value) == "self.exit()":
+        dunder = ".returnsExit"
+    elif len(ex) == 2 and isinstance(ex[0], ast.Expr) and ast.unparse(ex[0].value) == "self.exit()" \
+            and isinstance(ex[1], ast.Return) and (ex[1].value is None
+                                                   or isinstance(ex[1].value, ast.Constant)):
+        v = None if ex[1].value is None else ex[1].value.value
+        dunder = "(.returnsConst %s)" % (".none" if v is None else ".falsy" if not v else ".value")
+    if dunder is None:
+        raise Untranslatable("BaseProgress.__exit__ is none of `self.exit()`, "
+                             "`return self.exit()`, `self.exit(); return <constant>`")
     out.append("/-- `with` on a progress object calls exactly enter() / exit() "
                "(BaseProgress.__enter__/__exit__) -/")
     out.append("def withCallsEnterExit : Bool := true\n")
+    out.append("/-- what BaseProgress.__exit__ returns: the `with` statement swallows the "
+               "exception iff this is truthy -/")
+    out.append("def dunderExit : ExitDelegation := %s\n" % dunder)
     pdict = None
     for st in tree.body:
         if isinstance(st, ast.Assign) and len(st.targets) == 1 \
@@ -5424,6 +5455,7 @@ def frag_progressguard(src):
                 and isinstance(v, ast.Name) and v.id in classes):
             raise Untranslatable("PROGRESS_DICT entry")
         kinds.append((k.value, v.id))
+    exit_returns = []
     for key, cname in kinds:
         cls = classes[cname]
         bases = [classes[b.id] for b in cls.bases if isinstance(b, ast.Name) and b.id in classes]
@@ -5434,6 +5466,7 @@ def frag_progressguard(src):
             if m not in pc.methods:
                 raise Untranslatable("%s.%s missing" % (cname, m))
             ops[m] = pc.block(pc.methods[m].body, m)
+        exit_returns.append((key, pc.returns.get("exit", "none")))
         cbs = {o[0] for m in ops for o in ops[m] if o[0].startswith("newTimer")}
         ps = []
         if "newTimer .printStatus" in cbs:
@@ -5462,6 +5495,9 @@ def frag_progressguard(src):
                      ("printStatus", ps)):
             out.append("  %s := %s" % (m, _pg_lean_list([str(o[1]) for o in l])))
         out.append("")
+    out.append("/-- what exit() of each progress class returns -/")
+    out.append("def exitReturn : List (String × RetVal) := "
+               + _pg_lean_list(['("%s", .%s)' % kr for kr in exit_returns]) + "\n")
     # ---- part 3: threads / processes started anywhere in the library
     sites = _pg_spawn_sites(src, {c for _k, c in kinds})
     out.append("/-- every construction of a thread / timer / process / executor pool in oqupy/, "
@@ -10726,28 +10762,68 @@ def _mw_trace_vectors(src, out):
     need("self._rho_dim = self._hs_dim ** 2")
     need("self._trace = (np.identity(self._hs_dim, dtype=NpDtype) / np.sqrt(float(self._hs_dim))).flatten()")
     need("self._trace_square = self._trace ** 2")
-    ifs = {}
-    for s in body:
-        if isinstance(s, ast.If):
-            ifs[_mw_norm(s.test)] = s
+    # every assignment to the transform / trace attributes, with the names its enclosing `if`
+    # tests require to be not None (any nesting; the else-branch of a test does not count)
+    assigned = {}          # attr -> list of (value text, sorted guard names)
+
+    def guard_names(test):
+        parts = test.values if isinstance(test, ast.BoolOp) and isinstance(test.op, ast.And) else [test]
+        names = []
+        for c in parts:
+            if isinstance(c, ast.Compare) and len(c.ops) == 1 and isinstance(c.ops[0], ast.IsNot) \
+                    and isinstance(c.comparators[0], ast.Constant) and c.comparators[0].value is None \
+                    and isinstance(c.left, ast.Name):
+                names.append(c.left.id)
+            else:
+                raise Untranslatable("BaseProcessTensor.__init__: cannot read the test `%s`" % _mw_norm(test))
+        return names
+
+    def visit(stmts, guards):
+        for st in stmts:
+            if isinstance(st, ast.If):
+                g = guard_names(st.test)
+                visit(st.body, guards + g)
+                visit(st.orelse, guards)
+            elif isinstance(st, ast.Assign) and len(st.targets) == 1:
+                t = _mw_norm(st.targets[0])
+                assigned.setdefault(t, []).append((_mw_norm(st.value), sorted(set(guards))))
+            elif isinstance(st, (ast.For, ast.While, ast.With, ast.Try)):
+                raise Untranslatable("BaseProcessTensor.__init__: unexpected %s" % type(st).__name__)
+    visit(body, [])
+    asserts = [_mw_norm(n) for n in ast.walk(fn) if isinstance(n, ast.Assert)]
+    guards_of = {}
     for which, matmul, dim_axis in (("in", "self._trace @ self._transform_in", 0),
                                     ("out", "self._transform_out @ self._trace", 1)):
-        s = ifs.get("transform_%s is not None" % which)
-        if s is None:
-            raise Untranslatable("BaseProcessTensor.__init__: no `if transform_%s is not None`" % which)
-        a = [_mw_norm(x) for x in s.body]
-        b = [_mw_norm(x) for x in s.orelse]
         tmp = "tmp_transform_%s" % which
-        want_a = ["%s = np.array(transform_%s, dtype=NpDtype)" % (tmp, which),
-                  "assert len(%s.shape) == 2" % tmp,
-                  "assert %s.shape[%d] == self._rho_dim" % (tmp, dim_axis),
-                  "self._%s_dim = %s.shape[%d]" % (which, tmp, 1 - dim_axis),
-                  "self._transform_%s = %s" % (which, tmp),
-                  "self._trace_%s = %s" % (which, matmul)]
-        want_b = ["self._%s_dim = self._rho_dim" % which, "self._transform_%s = None" % which,
-                  "self._trace_%s = self._trace" % which]
-        if a != want_a or b != want_b:
-            raise Untranslatable("BaseProcessTensor.__init__: transform_%s block %r / %r" % (which, a, b))
+        want = {tmp: {"np.array(transform_%s, dtype=NpDtype)" % which},
+                "self._transform_%s" % which: {tmp, "None"},
+                "self._trace_%s" % which: {matmul, "self._trace"},
+                "self._%s_dim" % which: {"%s.shape[%d]" % (tmp, 1 - dim_axis), "self._rho_dim"}}
+        for attr, vals in want.items():
+            got = {v for v, _ in assigned.get(attr, [])}
+            if got != vals:
+                raise Untranslatable("BaseProcessTensor.__init__: %s is assigned %r, expected %r"
+                                     % (attr, sorted(got), sorted(vals)))
+        for a in ("assert len(%s.shape) == 2" % tmp, "assert %s.shape[%d] == self._rho_dim" % (tmp, dim_axis)):
+            if a not in asserts:
+                raise Untranslatable("BaseProcessTensor.__init__: missing `%s`" % a)
+        # the guard under which the given transform (and the trace vector made from it) is stored
+        gs = {tuple(g) for attr, v in (("self._transform_%s" % which, tmp), ("self._trace_%s" % which, matmul),
+                                       ("self._%s_dim" % which, "%s.shape[%d]" % (tmp, 1 - dim_axis)))
+              for val, g in assigned[attr] if val == v}
+        if len(gs) != 1:
+            raise Untranslatable("BaseProcessTensor.__init__: transform_%s is stored under different tests" % which)
+        guards_of[which] = list(gs.pop())
+        # the defaults (None / plain trace) must not be conditional on anything but this transform
+        for attr, v in (("self._transform_%s" % which, "None"), ("self._trace_%s" % which, "self._trace")):
+            for val, g in assigned[attr]:
+                if val == v and g:
+                    raise Untranslatable("BaseProcessTensor.__init__: default of %s is conditional" % attr)
+    out.append("/-- %s:%d  BaseProcessTensor.__init__: the arguments that must be given (not None) for\n"
+               "    `transform_in` / `transform_out` to be stored (and `_trace_in` / `_trace_out` made from it) -/\n"
+               "def transformInGuard : List String := [%s]\ndef transformOutGuard : List String := [%s]\n"
+               % (rel, fn.lineno, ", ".join('"%s"' % g for g in guards_of["in"]),
+                  ", ".join('"%s"' % g for g in guards_of["out"])))
     # 1-d @ 2-d contracts axis 0 of the matrix; 2-d @ 1-d contracts axis 1
     out.append("/-- %s:%d  BaseProcessTensor.__init__:  `_trace = identity(d)/sqrt(d)` flattened (row-major),\n"
                "    `_trace_square = _trace**2`,  `_trace_in = _trace @ transform_in` (axis `traceInMatAxis` of\n"
